@@ -15,6 +15,7 @@ import (
 	"fmt"
 	"go/ast"
 	"go/token"
+	"os"
 	"path/filepath"
 	"regexp"
 	"sort"
@@ -25,6 +26,7 @@ type accVar struct {
 	name  string // canonical variable name, e.g. "broker.Metrics.proxyIdleCount"
 	files string // regexp over the file base name in which the pattern is meaningful
 	expr  string // regexp over the printed expression (anchored)
+	mut   string // optional regexp over method names that mutate the object the variable refers to (x.M(...) counts as a write of x)
 }
 
 type lockAlias struct {
@@ -32,10 +34,13 @@ type lockAlias struct {
 }
 
 type accPkg struct {
-	dir     string
-	vars    []accVar
-	aliases []lockAlias
-	ctors   string // regexp over function names that run before the value is published
+	dir       string
+	vars      []accVar
+	aliases   []lockAlias
+	ctors     string              // regexp over function names that run before the value is published
+	callbacks map[string][]string // regexp over a printed callee -> functions of the package it calls back (e.g. heap.Push -> SnowflakeHeap.Push/Swap/Less)
+	exported  bool                // library package: exported functions can be entered from outside with nothing held
+	assume    map[string][]string // exported function -> locks its callers are assumed to hold (recorded as an assumption)
 }
 
 var accPkgs []accPkg
@@ -47,7 +52,8 @@ type access struct {
 	fn     string
 	write  bool
 	atomic bool
-	locks  []string
+	locks  []string // held exclusively (Lock)
+	rlocks []string // held shared (RLock)
 	ctor   bool
 }
 
@@ -59,8 +65,10 @@ type accCtx struct {
 	out     *[]access
 	entry   map[string][]string            // function name -> must-hold set at entry
 	calls   map[string][][]string          // function name -> held sets at its call sites
-	unique  map[string]bool                // function (base) names that are unique in the package
+	unique  map[string]string              // base names that are unique in the package -> full function name
+	cbRe    map[string]*regexp.Regexp
 	varRe   []*regexp.Regexp
+	mutRe   []*regexp.Regexp
 	fileRe  []*regexp.Regexp
 	aliasRe [][2]*regexp.Regexp
 	ctorRe  *regexp.Regexp
@@ -77,13 +85,42 @@ func (c *accCtx) canonLock(e ast.Expr) string {
 }
 
 func (c *accCtx) varOf(e ast.Expr) string {
+	v, _ := c.varIdx(e)
+	return v
+}
+
+func (c *accCtx) varIdx(e ast.Expr) (string, int) {
 	s := exprStr(c.p.fset, e)
 	for i, v := range c.cfg.vars {
 		if c.fileRe[i].MatchString(c.file) && c.varRe[i].MatchString(s) {
-			return v.name
+			return v.name, i
 		}
 	}
-	return ""
+	return "", -1
+}
+
+func (c *accCtx) record(v string, held map[string]bool, write, atomicCtx bool) {
+	var ex, sh []string
+	for _, l := range setList(held) {
+		if strings.HasPrefix(l, "R:") {
+			sh = append(sh, l[2:])
+		} else {
+			ex = append(ex, l)
+		}
+	}
+	*c.out = append(*c.out, access{v: v, fn: c.fn, write: write, atomic: atomicCtx, locks: ex, rlocks: sh, ctor: c.ctorRe != nil && c.ctorRe.MatchString(c.fn)})
+}
+
+// inLit analyses the body of a function literal that runs as a goroutine or callback: it is labelled
+// apart from the enclosing function so that a constructor's background goroutine is not taken for
+// constructor-phase code.
+func (c *accCtx) inLit(f func()) {
+	old := c.fn
+	if !strings.HasSuffix(c.fn, "·func") {
+		c.fn += "·func"
+	}
+	f()
+	c.fn = old
 }
 
 func copySet(s map[string]bool) map[string]bool {
@@ -111,7 +148,7 @@ func (c *accCtx) exprAcc(e ast.Node, held map[string]bool, write bool, atomicCtx
 	ast.Inspect(e, func(n ast.Node) bool {
 		switch x := n.(type) {
 		case *ast.FuncLit:
-			c.block(x.Body.List, map[string]bool{}) // callbacks and goroutines start with nothing held
+			c.inLit(func() { c.block(x.Body.List, map[string]bool{}) }) // callbacks and goroutines start with nothing held
 			return false
 		case *ast.CallExpr:
 			callee := exprStr(c.p.fset, x.Fun)
@@ -126,18 +163,43 @@ func (c *accCtx) exprAcc(e ast.Node, held map[string]bool, write bool, atomicCtx
 				c.exprAcc(x.Args[1], held, false, false)
 				return false
 			}
+			// x.M(...) with M a declared mutator of tracked variable x: a write of x
+			if sel, ok := x.Fun.(*ast.SelectorExpr); ok {
+				if v, i := c.varIdx(sel.X); v != "" && c.mutRe[i] != nil && c.mutRe[i].MatchString(sel.Sel.Name) {
+					c.record(v, held, true, false)
+					for _, a := range x.Args {
+						c.exprAcc(a, held, false, false)
+					}
+					return false
+				}
+			}
 			// call-site lockset for package functions
 			name := callee
 			if i := strings.LastIndex(name, "."); i >= 0 {
 				name = name[i+1:]
 			}
-			if c.unique[name] {
-				c.calls[name] = append(c.calls[name], setList(held))
+			if c.ctorRe != nil && c.ctorRe.MatchString(c.fn) {
+				return true // constructor phase: the value is not shared yet, the call site does not constrain the callee
+			}
+			if full, ok := c.unique[name]; ok {
+				c.calls[full] = append(c.calls[full], setList(held))
+			}
+			for pat, fns := range c.cfg.callbacks {
+				if c.cbRe[pat].MatchString(callee) {
+					for _, f := range fns {
+						c.calls[f] = append(c.calls[f], setList(held))
+					}
+				}
 			}
 		case *ast.SelectorExpr, *ast.Ident:
 			ex := x.(ast.Expr)
 			if v := c.varOf(ex); v != "" {
-				*c.out = append(*c.out, access{v: v, fn: c.fn, write: write, atomic: atomicCtx, locks: setList(held), ctor: c.ctorRe != nil && c.ctorRe.MatchString(c.fn)})
+				c.record(v, held, write, atomicCtx)
+				return false
+			}
+		case *ast.StarExpr:
+			if v := c.varOf(x); v != "" {
+				c.record(v, held, write, atomicCtx)
 				return false
 			}
 		case *ast.IndexExpr:
@@ -182,10 +244,15 @@ func (c *accCtx) stmt(s ast.Stmt, held map[string]bool) {
 	case *ast.ExprStmt:
 		if call, ok := x.X.(*ast.CallExpr); ok {
 			if l, op := c.lockCall(call); l != "" {
-				if op == "Lock" || op == "RLock" {
+				switch op {
+				case "Lock":
 					held[l] = true
-				} else {
+				case "RLock":
+					held["R:"+l] = true
+				case "Unlock":
 					delete(held, l)
+				case "RUnlock":
+					delete(held, "R:"+l)
 				}
 				return
 			}
@@ -202,7 +269,7 @@ func (c *accCtx) stmt(s ast.Stmt, held map[string]bool) {
 		c.exprAcc(x.Call, held, false, false)
 	case *ast.GoStmt:
 		if fl, ok := x.Call.Fun.(*ast.FuncLit); ok {
-			c.block(fl.Body.List, map[string]bool{})
+			c.inLit(func() { c.block(fl.Body.List, map[string]bool{}) })
 			for _, a := range x.Call.Args {
 				c.exprAcc(a, held, false, false)
 			}
@@ -213,8 +280,8 @@ func (c *accCtx) stmt(s ast.Stmt, held map[string]bool) {
 		if i := strings.LastIndex(name, "."); i >= 0 {
 			name = name[i+1:]
 		}
-		if c.unique[name] {
-			c.calls[name] = append(c.calls[name], nil)
+		if full, ok := c.unique[name]; ok {
+			c.calls[full] = append(c.calls[full], nil)
 		}
 		for _, a := range x.Call.Args {
 			c.exprAcc(a, held, false, false)
@@ -305,10 +372,18 @@ func intersect(sets [][]string) []string {
 
 func analysePkg(cfg *accPkg) []access {
 	p := loadPkg(cfg.dir)
-	c := &accCtx{p: p, cfg: cfg, entry: map[string][]string{}, unique: map[string]bool{}}
+	c := &accCtx{p: p, cfg: cfg, entry: map[string][]string{}, unique: map[string]string{}, cbRe: map[string]*regexp.Regexp{}}
+	for pat := range cfg.callbacks {
+		c.cbRe[pat] = regexp.MustCompile("^(?:" + pat + ")$")
+	}
 	for _, v := range cfg.vars {
 		c.varRe = append(c.varRe, regexp.MustCompile("^(?:"+v.expr+")$"))
 		c.fileRe = append(c.fileRe, regexp.MustCompile(v.files))
+		if v.mut != "" {
+			c.mutRe = append(c.mutRe, regexp.MustCompile("^(?:"+v.mut+")$"))
+		} else {
+			c.mutRe = append(c.mutRe, nil)
+		}
 	}
 	for _, a := range cfg.aliases {
 		c.aliasRe = append(c.aliasRe, [2]*regexp.Regexp{regexp.MustCompile(a.files), regexp.MustCompile("^(?:" + a.expr + ")$")})
@@ -318,16 +393,18 @@ func analysePkg(cfg *accPkg) []access {
 	}
 	// unique base names
 	count := map[string]int{}
+	fullOf := map[string]string{}
 	for name := range p.funcs {
 		b := name
 		if i := strings.LastIndex(b, "."); i >= 0 {
 			b = b[i+1:]
 		}
 		count[b]++
+		fullOf[b] = name
 	}
 	for b, n := range count {
 		if n == 1 {
-			c.unique[b] = true
+			c.unique[b] = fullOf[b]
 		}
 	}
 	names := make([]string, 0, len(p.funcs))
@@ -352,12 +429,23 @@ func analysePkg(cfg *accPkg) []access {
 				b = b[i+1:]
 			}
 			held := map[string]bool{}
-			for _, l := range c.entry[b] {
-				held[l] = true
+			if as, ok := cfg.assume[name]; ok {
+				for _, l := range as {
+					held[l] = true
+				}
+			} else if !(cfg.exported && ast.IsExported(b)) {
+				for _, l := range c.entry[name] {
+					held[l] = true
+				}
 			}
 			c.block(fd.Body.List, held)
 		}
 		changed := false
+		if os.Getenv("ACC_DEBUG") != "" {
+			for b, sets := range c.calls {
+				fmt.Fprintf(os.Stderr, "round %d calls %s: %v\n", round, b, sets)
+			}
+		}
 		for b, sets := range c.calls {
 			n := intersect(sets)
 			if strings.Join(n, ",") != strings.Join(c.entry[b], ",") {
@@ -375,17 +463,20 @@ func analysePkg(cfg *accPkg) []access {
 func emitAccesses() string {
 	var b strings.Builder
 	b.WriteString("/- GENERATED by /verif/extract from the repository working tree. Do not edit. -/\nnamespace Snowflake.Gen.Accesses\n\n")
-	b.WriteString("structure Acc where\n  v : String\n  fn : String\n  write : Bool\n  atomic : Bool\n  locks : List String\n  ctor : Bool\nderiving DecidableEq, Repr\n\n")
+	b.WriteString("structure Acc where\n  v : String\n  fn : String\n  write : Bool\n  atomic : Bool\n  locks : List String\n  rlocks : List String\n  ctor : Bool\nderiving DecidableEq, Repr\n\n")
 	b.WriteString("def table : List Acc := [\n")
 	var rows []string
 	seen := map[string]bool{}
 	for i := range accPkgs {
 		for _, a := range analysePkg(&accPkgs[i]) {
-			var ls []string
+			var ls, rs []string
 			for _, l := range a.locks {
 				ls = append(ls, leanStr(l))
 			}
-			row := fmt.Sprintf("  ⟨%s, %s, %v, %v, [%s], %v⟩", leanStr(a.v), leanStr(a.fn), a.write, a.atomic, strings.Join(ls, ", "), a.ctor)
+			for _, l := range a.rlocks {
+				rs = append(rs, leanStr(l))
+			}
+			row := fmt.Sprintf("  ⟨%s, %s, %v, %v, [%s], [%s], %v⟩", leanStr(a.v), leanStr(a.fn), a.write, a.atomic, strings.Join(ls, ", "), strings.Join(rs, ", "), a.ctor)
 			if !seen[row] {
 				seen[row] = true
 				rows = append(rows, row)
@@ -407,6 +498,14 @@ func emitAccesses() string {
 	}
 	sort.Strings(vars)
 	fmt.Fprintf(&b, "def sharedVars : List String := [%s]\n\n", strings.Join(vars, ", "))
+	var as []string
+	for _, p := range accPkgs {
+		for fn, ls := range p.assume {
+			as = append(as, leanStr(p.dir+" "+fn+" is only entered with "+strings.Join(ls, ", ")+" held"))
+		}
+	}
+	sort.Strings(as)
+	fmt.Fprintf(&b, "/-- Caller assumptions used by the lockset analysis (declared in extract/specs_accesses.go). -/\ndef callerAssumptions : List String := [%s]\n\n", strings.Join(as, ", "))
 	b.WriteString("end Snowflake.Gen.Accesses\n")
 	return b.String()
 }
